@@ -25,3 +25,18 @@ Theorem C09_statement : forall c r ls, 1 <= c -> 1 <= r -> Forall (Forall (fun x
 Proof. exact C09_holds. Qed.
 Check C09_statement : forall c r ls, 1 <= c -> 1 <= r -> Forall (Forall (fun x => printable_c09 x = true)) ls -> exists v o, feed_str (vt_new c r None) (join_crlf ls) = Ok (v, o) /\ holds_C09 (join_crlf ls) (vt_text v) (unwrapped v) = true.
 Print Assumptions C09_statement.
+
+From Avt Require Import Gen.RestFns Proofs.BufTie Proofs.RestTie.
+(** SOURCE TIE BY PROOF (translate/rest2coq.py -> Gen/RestFns.v): the Rust function is REGENERATED on every run (u8/u16/u32/char as N with exact casts, isize as Z with guards on `as usize`, loops as folds or fuelled fixpoints, every Rust panic condition as a guard) and the hand-written model function is proved equal to it (=~ : equal up to the panic-site number) *)
+(** Buffer::text regenerated *)
+Theorem C09_source_text : forall b, g_buffer_text b = Ok (buf_text b).
+Proof. exact tie_buffer_text. Qed.
+Check C09_source_text : forall b, g_buffer_text b = Ok (buf_text b).
+Print Assumptions C09_source_text.
+
+(** TextUnwrapper::push regenerated *)
+Theorem C09_source_unwrapper_push : forall st l, g_unwrapper_push st l = Ok (unwrap_push st l).
+Proof. exact tie_unwrapper_push. Qed.
+Check C09_source_unwrapper_push : forall st l, g_unwrapper_push st l = Ok (unwrap_push st l).
+Print Assumptions C09_source_unwrapper_push.
+
